@@ -160,7 +160,14 @@ def run(ctx: Ctx, tier: str) -> Result:
             k == "assign" and b_[1] is cp for k, b_ in t.local_bindings(matcher, racc[0].value.id))))
         anchor = cp
     else:
-        need(False, "matcher %s: expected one loop (or one two-level comprehension) over the installed triggers" % matcher.qname)
+        # neither a loop over the installed triggers nor the equivalent comprehension: whatever is there (first match only,
+        # a lookup by key) does not visit every trigger and add all actions of each matching one
+        first_ = [n for n in t.nodes_in(matcher, ast.Call) if isinstance(n.func, ast.Name) and n.func.id in ("next", "any", "filter")]
+        res.fail(Finding("C03.LOOP", matcher.qname, first_[0] if first_ else "<for trigger in installed: if trigger.at_location(..): actions += trigger.actions>",
+                         matcher.loc(first_[0]) if first_ else matcher.loc(),
+                         "the matcher does not visit every installed trigger and add all actions of each one that matches%s: of several tracepoints on one location "
+                         "(registered ones are kept as triggers of their own) only one acts" % (" (`%s` stops at the first)" % norm(first_[0])[:50] if first_ else "")))
+        return res
     it_t = t.type_of(it_expr, matcher)
     cfg_ok = any(x[0] == "seq" and any(e[0] == "inst" and e[1] == TRIG + ".Trigger" for e in x[1]) for x in it_t)
     stores = t.field_stores(matcher.cls, it_expr.attr) if isinstance(it_expr, ast.Attribute) else []
